@@ -336,7 +336,7 @@ func scopeIncludes(strategy, granted, required string) bool {
 
 var fullCatalogue = []string{
 	"sig-flip", "sig-truncate", "sig-empty", "alg-none", "alg-hs-pem", "alg-hs-der", "alg-hs-jwk", "alg-other",
-	"kid-other", "kid-remove", "kid-unknown", "iss-untrusted", "iss-missing", "aud-wrong", "aud-missing", "scope-missing",
+	"kid-other", "kid-remove", "kid-unknown", "iss-untrusted", "iss-missing", "iss-near-miss", "iss-near-miss", "iss-near-miss", "aud-wrong", "aud-missing", "scope-missing",
 	"scope-char-prefix", "scope-child", "scope-sibling", "scope-dot-prefix", "scope-char-suffix", "scope-ancestor", "scope-one-missing",
 	"exp-far-past", "exp-just-past", "exp-inside-leeway", "exp-zero", "exp-negative", "exp-string", "exp-huge", "exp-missing",
 	"nbf-future", "nbf-inside-leeway", "iat-future", "nbf-beyond-int64", "nbf-2pow63", "nbf-maxint64", "nbf-far-future", "iat-beyond-int64", "iat-maxint64", "exp-year-one", "resign-other-key", "two-parts", "four-parts", "payload-edit-unsigned",
@@ -483,6 +483,19 @@ func genToken(t *rapid.T, set []keyEntry, eff assertions, now int64, catalogue [
 			tk.Header["kid"] = "nobody"
 		case "iss-untrusted":
 			tk.Claims["iss"] = issuers[2]
+		case "iss-near-miss":
+			// an issuer which reads almost like a trusted one (issuer identifiers are compared as they are: RFC 8414, section 3.3)
+			if iss, ok := tk.Claims["iss"].(string); ok {
+				tk.Claims["iss"] = rapid.SampledFrom([]func(string) string{
+					func(s string) string { return s + "/" },
+					func(s string) string { return strings.TrimSuffix(s, "m") },
+					func(s string) string { return strings.ToUpper(s) },
+					func(s string) string { return s + "/tenant" },
+					func(s string) string { return " " + s },
+					func(s string) string { return strings.Replace(s, "https://", "http://", 1) },
+					func(s string) string { return s + "." },
+				}).Draw(t, "issuerEdit")(iss)
+			}
 		case "iss-missing":
 			delete(tk.Claims, "iss")
 		case "aud-wrong":
